@@ -24,14 +24,18 @@ import (
 	"sort"
 	"strings"
 	"sync"
+	"testing/fstest"
 	"time"
 
+	"github.com/foxboron/go-uefi/efi"
 	"github.com/foxboron/go-uefi/efi/attributes"
 	"github.com/foxboron/go-uefi/efi/device"
 	"github.com/foxboron/go-uefi/efi/signature"
 	"github.com/foxboron/go-uefi/efi/util"
 	"github.com/foxboron/go-uefi/efivar"
 	"github.com/foxboron/go-uefi/efivarfs/fswrapper"
+	"github.com/foxboron/go-uefi/efivarfs/testfs"
+	"github.com/spf13/afero"
 )
 
 func errCls(err error) string {
@@ -189,6 +193,141 @@ func init() {
 		}
 		return "ok", ""
 	}
+	// ---- the other public entry points that decode the same contents ----
+	// the Unmarshal methods (what GetVar calls) next to the Read* functions
+	workerOps["sigdb.unmarshal"] = func(a map[string]string) (string, string) {
+		var db signature.SignatureDatabase
+		err := db.Unmarshal(bytes.NewBuffer(unhx(a["b"])))
+		if err == nil {
+			db.Bytes()
+		}
+		return errCls(err), ""
+	}
+	workerOps["auth.unmarshal"] = func(a map[string]string) (string, string) {
+		var d signature.EFIVariableAuthentication2
+		err := d.Unmarshal(bytes.NewBuffer(unhx(a["b"])))
+		if err == nil {
+			var m bytes.Buffer
+			d.Marshal(&m)
+		}
+		return errCls(err), ""
+	}
+	// the two exported parsers a caller composes (as the package-level efi.GetBootEntry does)
+	workerOps["loadoption.parsers"] = func(a map[string]string) (string, string) {
+		buf := bytes.NewBuffer(unhx(a["b"]))
+		lo, err := device.ParseEFILoadOption(buf)
+		if err != nil {
+			return "err", ""
+		}
+		lo.FilePath, err = device.ParseDevicePath(buf)
+		if err == nil {
+			for _, p := range lo.FilePath {
+				p.Format()
+			}
+		}
+		return errCls(err), ""
+	}
+	// the exported media node parser (it has an error result): header from the first four bytes, body from a reader
+	workerOps["node.media"] = func(a map[string]string) (string, string) {
+		b := unhx(a["b"])
+		if len(b) < 4 {
+			return "err", "short"
+		}
+		hdr := device.EFIDevicePath{Type: device.DevicePathType(b[0]), SubType: device.DevicePathSubType(b[1]), Length: [2]uint8{b[2], b[3]}}
+		r, done := streamOf(a["reader"], b[4:])
+		defer done()
+		n, err := device.ParseMediaDevicePath(r, &hdr)
+		if err == nil && n != nil {
+			n.Format()
+		}
+		return errCls(err), ""
+	}
+	// the terminator scan under the string decoders
+	workerOps["nullstring"] = func(a map[string]string) (string, string) {
+		r, done := streamOf(a["reader"], unhx(a["b"]))
+		defer done()
+		util.ReadNullString(r)
+		return "ok", ""
+	}
+	// the variable getters: the input is the whole variable FILE (attributes and value, or fewer than four bytes) in
+	// an in-memory store; through the store object (Efivarfs over the test store) and through the package-level API
+	for name, v := range c14GetterVars {
+		name, v := name, v
+		path := "/sys/firmware/efi/efivars/" + name + "-" + canonGUIDText(*v.GUID)
+		workerOps["store.get/"+name] = func(a map[string]string) (string, string) {
+			st := testfs.NewTestFS().With(fstest.MapFS{path: {Data: unhx(a["b"])}}).Open()
+			var err error
+			switch name {
+			case "PK":
+				_, err = st.GetPK()
+			case "KEK":
+				_, err = st.GetKEK()
+			case "db":
+				_, err = st.Getdb()
+			case "dbx":
+				_, err = st.Getdbx()
+			case "SetupMode":
+				_, err = st.GetSetupMode()
+			case "SecureBoot":
+				_, err = st.GetSecureBoot()
+			case "BootOrder":
+				st.GetBootOrder()
+			case "LoaderEntrySelected":
+				_, err = st.GetLoaderEntrySelected()
+			default:
+				var lo *device.EFILoadOption
+				if lo, err = st.GetBootEntry(name); err == nil {
+					for _, p := range lo.FilePath {
+						p.Format()
+					}
+				}
+			}
+			return errCls(err), ""
+		}
+		workerOps["legacy.get/"+name] = func(a map[string]string) (string, string) {
+			mem := afero.NewMemMapFs()
+			afero.WriteFile(mem, path, unhx(a["b"]), 0o644)
+			var err error
+			withLegacyFs(mem, func() {
+				switch name {
+				case "PK":
+					_, err = efi.GetPK()
+				case "KEK":
+					_, err = efi.GetKEK()
+				case "db":
+					_, err = efi.Getdb()
+				case "dbx":
+					_, err = efi.Getdbx()
+				case "SetupMode":
+					efi.GetSetupMode()
+				case "SecureBoot":
+					efi.GetSecureBoot()
+				case "BootOrder":
+					efi.GetBootOrder()
+				case "LoaderEntrySelected":
+					_, err = efi.GetCurrentlyBootedEntry()
+				default:
+					var lo *device.EFILoadOption
+					if lo, err = efi.GetBootEntry(name); err == nil {
+						for _, p := range lo.FilePath {
+							p.Format()
+						}
+					}
+				}
+			})
+			return errCls(err), ""
+		}
+	}
+	// a value written to a secure-boot variable of the in-memory test store: the store looks for an
+	// authentication descriptor in front of it (any value a test writes goes through that decoder), then reads it back
+	workerOps["teststore.write"] = func(a map[string]string) (string, string) {
+		st := testfs.NewTestFS().Open()
+		if err := st.WriteVar(efivar.Db, rawValue(unhx(a["b"]))); err != nil {
+			return "err", "write"
+		}
+		_, err := st.Getdb()
+		return errCls(err), ""
+	}
 	workerOps["readcert"] = func(a map[string]string) (string, string) {
 		_, err := util.ReadCert(unhx(a["b"]))
 		return errCls(err), ""
@@ -284,6 +423,10 @@ func init() {
 		return "ok", ""
 	}
 }
+
+// the variables behind the getters of the store object and of the package-level API
+var c14GetterVars = map[string]efivar.Efivar{"PK": efivar.PK, "KEK": efivar.KEK, "db": efivar.Db, "dbx": efivar.Dbx, "SetupMode": efivar.SetupMode,
+	"SecureBoot": efivar.SecureBoot, "BootOrder": efivar.BootOrder, "Boot0001": efivar.BootEntry, "LoaderEntrySelected": efivar.LoaderEntrySelected}
 
 // c14Variant is input number i of a family of inputs of one shape: base with the w bytes at offset at
 // replaced by bytes derived from i (mode "bin": the bytes of SHA-256(i); mode "hex": its lower-case hex
@@ -388,7 +531,7 @@ var c14Worker *Worker
 
 // entry points that take an io.Reader (the others take a *bytes.Buffer, a []byte or a string)
 var c14StreamEps = map[string]bool{"sigdb.read": true, "siglist.read": true, "sigdata.read": true, "auth.read": true, "wincert.read": true,
-	"wincertguid.read": true, "devicepath": true, "supportedsigs": true, "efivars.parse": true, "efivars.declared": true}
+	"wincertguid.read": true, "devicepath": true, "supportedsigs": true, "efivars.parse": true, "efivars.declared": true, "node.media": true, "nullstring": true}
 
 // allocation budget: proportional to the input plus a constant for fixed-size buffers and the
 // runtime's own bookkeeping (error values, reflection in encoding/binary)
@@ -642,7 +785,7 @@ func c14Gen(c *Ctx) {
 	x5 := encodeList(tX509, nil, len(u.data[4])+16, [][2][]byte{{u.owners[0], u.data[4]}})
 	// --- signature lists / databases: every size field, truncations ---
 	for _, seed := range [][]byte{sha, x5, append(append([]byte{}, sha...), x5...)} {
-		for _, ep := range []string{"sigdb.read", "siglist.read"} {
+		for _, ep := range []string{"sigdb.read", "siglist.read", "sigdb.unmarshal"} {
 			emit(ep, "valid", "", seed)
 			for _, off := range []int{16, 20, 24} {
 				for _, v := range []uint32{0, 1, 15, 16, 17, 27, 28, 29, 47, 48, 49, 1 << 16, 1 << 24, 1 << 31, 0xffffffff, 0xfffffff0, 0x80000010} {
@@ -700,7 +843,7 @@ func c14Gen(c *Ctx) {
 	// --- descriptors / WIN_CERTIFICATEs: short input, dwLength < 8 and huge, wrong type ---
 	pk7 := wireGUID(signature.EFI_CERT_TYPE_PKCS7_GUID)
 	desc := mkAuth(randBytes(c, 16), 24+10, 0x0200, 0x0EF1, pk7, randBytes(c, 10), []byte("payload"))
-	for _, ep := range []string{"auth.read"} {
+	for _, ep := range []string{"auth.read", "auth.unmarshal"} {
 		emit(ep, "valid", "", desc)
 		for cut := 0; cut <= len(desc); cut++ {
 			site := "short-body"
@@ -755,18 +898,30 @@ func c14Gen(c *Ctx) {
 		}
 	}
 	for _, lo := range los {
-		emit("loadoption", "valid", "", lo)
-		for cut := 0; cut < len(lo); cut += 1 + len(lo)/60 {
-			emit("loadoption", "truncated", "devicepath", lo[:cut])
-		}
-		// without the end node
-		if len(lo) > 4 {
-			emit("loadoption", "no-end-node", "devicepath", lo[:len(lo)-4])
-		}
-		for i := 0; i < c.N(20, 300); i++ {
-			m := append([]byte{}, lo...)
-			m[c.Rng.Intn(len(m))] = byte(c.Rng.Intn(256))
-			emit("loadoption", "byteset", "devicepath", m)
+		for _, ep := range []string{"loadoption", "loadoption.parsers", "store.get/Boot0001", "legacy.get/Boot0001"} {
+			in := func(b []byte) []byte { // the getters take the variable file: attributes, then the load option
+				if strings.Contains(ep, ".get/") {
+					return append([]byte{7, 0, 0, 0}, b...)
+				}
+				return b
+			}
+			cuts, sets := 60, c.N(20, 300)
+			if strings.Contains(ep, ".get/") { // the same decoder behind the file reader: a coarser sweep
+				cuts, sets = c.P(12, 60), c.N(4, 100)
+			}
+			emit(ep, "valid", "", in(lo))
+			for cut := 0; cut < len(lo); cut += 1 + len(lo)/cuts {
+				emit(ep, "truncated", "devicepath", in(lo[:cut]))
+			}
+			// without the end node
+			if len(lo) > 4 {
+				emit(ep, "no-end-node", "devicepath", in(lo[:len(lo)-4]))
+			}
+			for i := 0; i < sets; i++ {
+				m := append([]byte{}, lo...)
+				m[c.Rng.Intn(len(m))] = byte(c.Rng.Intn(256))
+				emit(ep, "byteset", "devicepath", in(m))
+			}
 		}
 	}
 	// every node's Length field set to each value below the 4-byte node header, to one less / one more
@@ -803,6 +958,16 @@ func c14Gen(c *Ctx) {
 			}
 		}
 	}
+	// the exported media node parser: every subtype with too little, exact and too much data, every declared length class
+	for sub := 0; sub < 12; sub++ {
+		for _, n := range []int{0, 1, 2, 3, 15, 16, 17, 37, 38, 39} {
+			for _, l := range []int{0, 3, 4, 4 + n, 0xffff} {
+				emit("node.media", fmt.Sprintf("node-4-%d", sub), "devicepath", append([]byte{4, byte(sub), byte(l), byte(l >> 8)}, randBytes(c, n)...))
+			}
+		}
+		emit("node.media", fmt.Sprintf("node-4-%d/string", sub), "devicepath", []byte{4, byte(sub), 10, 0, 0x41, 0, 0x42, 0, 0, 0})
+		emit("node.media", fmt.Sprintf("node-4-%d/string-noterm", sub), "devicepath", []byte{4, byte(sub), 9, 0, 0x41, 0, 0x42, 0, 0})
+	}
 	for f := 0; f < 256; f += 1 {
 		hd := append([]byte{4, 1, 42, 0}, randBytes(c, 38)...)
 		hd[4+36] = byte(f)
@@ -818,6 +983,10 @@ func c14Gen(c *Ctx) {
 	for _, b := range [][]byte{nil, {0}, {0, 0}, {0x41}, {0x41, 0}, {0x41, 0, 0, 0}, {0, 0xd8}, {0, 0xd8, 0, 0}, bytes.Repeat([]byte{0x41, 0}, 5000)} {
 		emit("utf16", "edge", "", b)
 		emit("efistring", "edge", "", b)
+		emit("nullstring", "edge", "", b)
+		for _, ep := range []string{"store.get/LoaderEntrySelected", "legacy.get/LoaderEntrySelected"} {
+			emit(ep, "edge", "", append([]byte{6, 0, 0, 0}, b...))
+		}
 	}
 	for i := 0; i < c.N(100, 5000); i++ {
 		b := randBytes(c, c.Rng.Intn(40))
@@ -828,6 +997,58 @@ func c14Gen(c *Ctx) {
 		emit("efivars.parse", "random", "", b)
 		emit("guid.parse", "random", "", b)
 		emit("guid.bytes", "random", "", b)
+		emit("nullstring", "random", "", b)
+		emit("teststore.write", "random", "", b)
+	}
+	// --- the variable getters of the store object and of the package-level API: the input is the variable FILE ---
+	// files of 0..3 bytes (no room for the attributes) and attributes alone, for every getter; then per kind of value
+	getterNames := make([]string, 0, len(c14GetterVars))
+	for name := range c14GetterVars {
+		getterNames = append(getterNames, name)
+	}
+	sort.Strings(getterNames)
+	attrs := []byte{0x27, 0, 0, 0} // NV|BS|RT|AT: satisfies the attribute check of every getter
+	for _, name := range getterNames {
+		for _, api := range []string{"store.get/", "legacy.get/"} {
+			for n := 0; n <= 4; n++ {
+				emit(api+name, "short-file", "", attrs[:n])
+			}
+			for i := 0; i < c.N(12, 200); i++ {
+				emit(api+name, "random-value", "", append(append([]byte{}, attrs...), randBytes(c, c.Rng.Intn(40))...))
+			}
+			emit(api+name, "other-attributes", "", append([]byte{0, 0, 0, 0}, randBytes(c, 8)...))
+			switch name {
+			case "PK", "KEK", "db", "dbx":
+				emit(api+name, "valid", "", append(append([]byte{}, attrs...), sha...))
+				emit(api+name, "valid", "", append(append([]byte{}, attrs...), x5...))
+				for _, off := range []int{16, 20, 24} {
+					for _, v := range []uint32{0, 1, 15, 16, 17, 28, 47, 48, 49, 1 << 24, 1 << 31, 0xffffffff, 0x80000010} {
+						emit(api+name, fmt.Sprintf("field@%d", off), "", append(append([]byte{}, attrs...), putU32(sha, off, v)...))
+					}
+				}
+				for cut := 0; cut < len(sha); cut += 1 + len(sha)/(3*c.P(4, 13)) {
+					emit(api+name, "truncated", "", append(append([]byte{}, attrs...), sha[:cut]...))
+				}
+			case "SetupMode", "SecureBoot":
+				for _, v := range [][]byte{nil, {0}, {1}, {2}, {1, 0}, {0xff, 0xff, 0xff}} {
+					emit(api+name, "value", "", append(append([]byte{}, attrs...), v...))
+				}
+			case "BootOrder":
+				for n := 0; n < 8; n++ {
+					emit(api+name, "length", "", append(append([]byte{}, attrs...), randBytes(c, n)...))
+				}
+			}
+		}
+	}
+	// a value written to a secure-boot variable of the in-memory test store (it looks for a descriptor in front of it)
+	for _, v := range [][]byte{nil, {0}, sha, x5, desc, append(append([]byte{}, desc...), sha...)} {
+		emit("teststore.write", "value", "", v)
+	}
+	for cut := 0; cut <= len(desc); cut += 1 {
+		emit("teststore.write", "descriptor-truncated", "", desc[:cut])
+	}
+	for _, v := range []uint32{0, 1, 7, 8, 9, 23, 24, 25, 1 << 20, 1 << 31, 0xffffffff} {
+		emit("teststore.write", "descriptor-dwLength", "", putU32(desc, 16, v))
 	}
 	for size := -3; size <= 12; size++ {
 		for _, n := range []int{0, 1, 3, 4, 5, 8, 11, 12, 13} {
@@ -1091,7 +1312,7 @@ func encryptedPKCS8Shape(c *Ctx, n int) []byte {
 
 func init() {
 	register("C14", &PropDef{
-		Rule:   "19 decoder entry points (ReadSignatureDatabase/List/Data, ReadEFIVariableAuthencation2, ReadWinCertificate(UEFIGUID), EFILoadOption.Unmarshal + Format, ParseDevicePath + Format, ParseUtf16Var, Efistring, boot order, GetSupportedSignatures, ParseEfivars, StringToGUID, BytesToGUID, ReadKey, ReadCert, ReadKeyFromFile, ReadCertFromFile) run in a sandboxed worker process (address-space limit, per-input timeout, runtime.MemStats.TotalAlloc delta). The 9 entry points that take an io.Reader get every input through one of 8 reader kinds chosen by a hash of the case (bytes.Reader, bytes.Buffer, bufio.Reader, io.SectionReader, an open os.File, io.Pipe, a reader with no method but Read, a one-byte reader). Inputs: every size field of lists / descriptors / certificates swept over {0,1,7,8,15,16,17,23,24,27,28,29,2^16,2^24,2^31,2^32-1,...}, consistent headers promising one 2 GiB signature or 2^12..2^26 signatures of the list's own size, every truncation point, captured and generated load options cut everywhere / without end node / byte-mutated, every device-path (type, subtype) with 0..38 bytes of data and with a declared node Length of 0..3 (below the 4-byte node header) / exact / 0xffff, every node Length of the captured and generated load options set to 0..3, +-1 and 0xffff, every partition-format byte, size scaling (one signature list of 4096 and of 20000 SHA-256 entries [thorough: 16384 / 80000], 1000 / 5000 certificate-sized entries in one list, each also split into lists of 64 / 16 entries of the same total size; a boot order of 30000 entries, 20000 GUIDs, a device path of 20000 nodes, a string of 200000 characters: time <= 0.5 s + 1 µs/byte, memory budget, and one-list time <= 8 x split time + 0.1 s, best of 3 runs), UTF-16 edge cases, random short inputs, PEM material cut and mutated, files with several PEM blocks (key+certificate in both orders, unknown block types, headers, text around the blocks, empty blocks); WELL-FORMED key files of every kind made for the run - RSA, ECDSA P-224/P-256/P-384/P-521, Ed25519, X25519 and ECDH keys in PKCS #8, RSA in PKCS #1, ECDSA in SEC 1 (also after an EC PARAMETERS block), each encoding also under the PEM label of another one, legacy encrypted PEM (Proc-Type/DEK-Info headers), PKCS #8 ENCRYPTED PRIVATE KEY, public keys, a certificate request, self-signed certificates of every signing key kind - each given to the key AND the certificate decoder in memory and as a file on disk, whole, cut at 12 [thorough: 60] points, before and after a certificate and after text. Lifetime of the process: for 26 input families (GUID text in four spellings, GUID bytes, signature lists / data, descriptors, WIN_CERTIFICATEs, hard-drive load options and paths, descriptions, strings, boot orders, GUID lists, attribute files, PEM certificates and keys with varying text before / inside the block) one worker process decodes 4 x 2500 DIFFERENT inputs of the family one after the other [X.509 / PKCS #8 / boot order: 4 x 500; thorough: x 10] and the live heap after garbage collection may gain at most 32 KiB + 4 bytes per call between the 2500th and the 10000th input (nothing may be kept per distinct input seen), and decodes 8 x 1250 inputs on 8 goroutines at once [thorough: 16 goroutines], half of them the goroutine's own and half common to all (normal build, no race detector): the worker must survive - a recovered panic, a fatal runtime error (concurrent map writes) or any other death of the worker is a violation reported with the family. Non-trivial: non-empty input; distinct = distinct (entry point, input). Static part: the call-graph certificate (see the Lean obligations).",
+		Rule:   "19 decoder entry points (ReadSignatureDatabase/List/Data, ReadEFIVariableAuthencation2, ReadWinCertificate(UEFIGUID), EFILoadOption.Unmarshal + Format, ParseDevicePath + Format, ParseUtf16Var, Efistring, boot order, GetSupportedSignatures, ParseEfivars, StringToGUID, BytesToGUID, ReadKey, ReadCert, ReadKeyFromFile, ReadCertFromFile) and the other public entry points that decode the same contents - SignatureDatabase.Unmarshal and EFIVariableAuthentication2.Unmarshal (same sweeps as the Read* functions), ParseEFILoadOption followed by ParseDevicePath (same sweeps as EFILoadOption.Unmarshal), the exported ParseMediaDevicePath (every subtype x body lengths 0..39 x declared lengths 0/3/4/exact/0xffff), ReadNullString, the 9 variable getters of the store object (Efivarfs.GetPK/GetKEK/Getdb/Getdbx/GetSetupMode/GetSecureBoot/GetBootOrder/GetBootEntry/GetLoaderEntrySelected over the in-memory test store) and their 9 package-level twins (efi.GetPK ... efi.GetBootEntry, efi.GetCurrentlyBootedEntry over fs.SetFS), whose input is the variable FILE (files of 0..4 bytes, attributes that do not match, random values, and per kind: lists with every size field swept and cut, boolean values of 0..3 bytes, boot orders of 0..7 bytes, load options cut / without end node / byte-mutated, UTF-16 edge cases), and a value written to a secure-boot variable of the in-memory test store (TestFS.WriteVar looks for a descriptor in front of it: descriptors cut everywhere, every dwLength class, lists, random bytes) - run in a sandboxed worker process (address-space limit, per-input timeout, runtime.MemStats.TotalAlloc delta). The 11 entry points that take an io.Reader get every input through one of 8 reader kinds chosen by a hash of the case (bytes.Reader, bytes.Buffer, bufio.Reader, io.SectionReader, an open os.File, io.Pipe, a reader with no method but Read, a one-byte reader). Inputs: every size field of lists / descriptors / certificates swept over {0,1,7,8,15,16,17,23,24,27,28,29,2^16,2^24,2^31,2^32-1,...}, consistent headers promising one 2 GiB signature or 2^12..2^26 signatures of the list's own size, every truncation point, captured and generated load options cut everywhere / without end node / byte-mutated, every device-path (type, subtype) with 0..38 bytes of data and with a declared node Length of 0..3 (below the 4-byte node header) / exact / 0xffff, every node Length of the captured and generated load options set to 0..3, +-1 and 0xffff, every partition-format byte, size scaling (one signature list of 4096 and of 20000 SHA-256 entries [thorough: 16384 / 80000], 1000 / 5000 certificate-sized entries in one list, each also split into lists of 64 / 16 entries of the same total size; a boot order of 30000 entries, 20000 GUIDs, a device path of 20000 nodes, a string of 200000 characters: time <= 0.5 s + 1 µs/byte, memory budget, and one-list time <= 8 x split time + 0.1 s, best of 3 runs), UTF-16 edge cases, random short inputs, PEM material cut and mutated, files with several PEM blocks (key+certificate in both orders, unknown block types, headers, text around the blocks, empty blocks); WELL-FORMED key files of every kind made for the run - RSA, ECDSA P-224/P-256/P-384/P-521, Ed25519, X25519 and ECDH keys in PKCS #8, RSA in PKCS #1, ECDSA in SEC 1 (also after an EC PARAMETERS block), each encoding also under the PEM label of another one, legacy encrypted PEM (Proc-Type/DEK-Info headers), PKCS #8 ENCRYPTED PRIVATE KEY, public keys, a certificate request, self-signed certificates of every signing key kind - each given to the key AND the certificate decoder in memory and as a file on disk, whole, cut at 12 [thorough: 60] points, before and after a certificate and after text. Lifetime of the process: for 26 input families (GUID text in four spellings, GUID bytes, signature lists / data, descriptors, WIN_CERTIFICATEs, hard-drive load options and paths, descriptions, strings, boot orders, GUID lists, attribute files, PEM certificates and keys with varying text before / inside the block) one worker process decodes 4 x 2500 DIFFERENT inputs of the family one after the other [X.509 / PKCS #8 / boot order: 4 x 500; thorough: x 10] and the live heap after garbage collection may gain at most 32 KiB + 4 bytes per call between the 2500th and the 10000th input (nothing may be kept per distinct input seen), and decodes 8 x 1250 inputs on 8 goroutines at once [thorough: 16 goroutines], half of them the goroutine's own and half common to all (normal build, no race detector): the worker must survive - a recovered panic, a fatal runtime error (concurrent map writes) or any other death of the worker is a violation reported with the family. Non-trivial: non-empty input; distinct = distinct (entry point, input). Static part: the call-graph certificate (see the Lean obligations).",
 		Assume: []string{"allocation budget 64 bytes per input byte + 2 MiB; time limit 3 s per input; for the large regular inputs 0.5 s + 1 µs per byte and at most 8 x the time of the same entries split into short lists + 0.1 s", "wall-clock time and resident memory are runtime facts measured on the sampled inputs only"},
 		Eval:   c14Eval, Gen: c14Gen,
 	})
